@@ -170,7 +170,7 @@ class HiddenDict_delete(HDContract):
 
     def ensures(self, it, pre, post, a, res):
         v0, v1 = self.hd(pre, a), self.hd(post, a)
-        return [('removed', v1.data.eq(v0.data.drop(T(a.key, it.st)))),
+        return [('removed', v1.data.same_view(v0.data.drop(T(a.key, it.st)))),
                 ('hidden-unchanged', v1.hidden.mem == v0.hidden.mem)]
 
     def raises(self, it, pre, a):
@@ -409,7 +409,7 @@ class Storage_delete_active_rec_subgraph(StContract):
 
     def ensures(self, it, pre, post, a, res):
         s0, s1 = self.sv(pre, a), self.sv(post, a)
-        return [('marker-removed', s1.P.data.eq(s0.P.data.drop(_pair(a, it)))),
+        return [('marker-removed', s1.P.data.same_view(s0.P.data.drop(_pair(a, it)))),
                 ('hidden-unchanged', s1.P.hidden.mem == s0.P.hidden.mem),
                 ('others-unchanged', s1.others_same(s0, 'processed_nodes'))]
 
